@@ -2,6 +2,10 @@
 # Applies every confirmed seeded change to /repo in turn, runs the check of its property (quick tier) and records
 # whether it is reported; /repo is restored after each one. Writes seeded/MATRIX.md. Run by hand (not a registered check).
 cd "$(dirname "$0")/.."
+# /repo must be clean before and is put back whatever ends this script (a seed left applied was once committed with the
+# tree and showed up as a C06 violation on the "unchanged" tree).
+[ -z "$(git -C /repo status --porcelain --untracked-files=no)" ] || { echo "/repo has uncommitted changes; refusing to run" >&2; exit 2; }
+trap 'git -C /repo reset --hard HEAD -q' EXIT INT TERM
 out=seeded/MATRIX.md
 echo "| seed | property check | reported | first line |" > $out
 echo "|---|---|---|---|" >> $out
